@@ -463,8 +463,8 @@ func (d *Data) TokenReader() xml.TokenReader {
 						if idx == -1 {
 							if len(typed) > 0 {
 								lines = append(lines, typed)
-								break
 							}
+							break
 						}
 						lines = append(lines, typed[:idx])
 						typed = typed[idx+1:]
